@@ -374,8 +374,8 @@ def run(ctx):
                  'so `nbdime config-git --disable` stops after this command and leaves the other drivers/tools enabled' % (
                      leaks[0][0], repo.norm(leaks[0][1].value)[:70]), leaks[0][1] if leaks else forwards[0])
     from ..signatures import call_compat
-    call_compat(ctx, 'R18.7', ['nbdime.vcs.git.', 'nbdime.__main__'], 'the config command aborts half-way, leaving some drivers configured and others not')
+    call_compat(ctx, 'R18.7', ['nbdime.vcs.git.', 'nbdime.__main__'] if ctx.tier == 'quick' else ['nbdime.'], 'the config command aborts half-way, leaving some drivers configured and others not')
     from ..names import name_binding
-    name_binding(ctx, 'R18.8', ['nbdime.vcs.git.', 'nbdime.__main__'])
+    name_binding(ctx, 'R18.8', ['nbdime.vcs.git.', 'nbdime.__main__'] if ctx.tier == 'quick' else ['nbdime.'])
     xdg_fallback_by_truthiness(ctx, 'R18.9')
     no_shared_command_state(ctx, 'R18.10')
